@@ -2,6 +2,7 @@
 import random
 
 from ..gen import mol as M
+from ..gen import ambig
 from ..oracles import V
 from .. import contracts, util
 from . import molcommon as MC
@@ -13,7 +14,9 @@ RULE = ('unique-label cut molecules (atomistic last level) and cut coarse graphs
         'labelled coarse descriptor pair of order c and the group-level edge order is the number of such pairs. Oracle: '
         'resolve_all() of the k-level string == resolve_all() of the two-level string == ground truth; in resolve_iter() the '
         'coarse graph of step i+1 IS the fine graph of step i; the C02/C03 post-state contract holds at every step; repeated '
-        'resolve(), resolve_iter() and resolve_all() on three fresh resolvers give identical canonical dumps. '
+        'resolve(), resolve_iter() and resolve_all() on three fresh resolvers give identical canonical dumps. 15 % of the cases '
+        'are polymer-style inputs (non-unique descriptors, "." bonds, multipliers, both conventions) written one level down '
+        'inside a single coarse fragment "{[#SYS]}.{#SYS=...}.{units}": same final molecule as the flattened string. '
         'distinct = (feature set, levels, #heavy, #fragments); non-trivial = at least 3 levels.')
 ASSUMPTIONS = ['documentation example strings are included verbatim (block copolymer, mPEG two- vs three-level)']
 MECHANISMS = [('cgsmiles.resolve', 'MoleculeResolver.resolve'), ('cgsmiles.resolve', 'MoleculeResolver.resolve_iter'),
@@ -32,6 +35,19 @@ def cases(seed, tier, shard, nshards):
     rng = random.Random(f'{seed}:C06:{tier}:{shard}')
     made = 0
     while made < SIZES[tier] // nshards:
+        if rng.random() < 0.15:
+            a = ambig.random_case(rng)
+            if a is None:
+                continue
+            cut = a['string'].index('}.{')
+            body, frag = a['string'][1:cut], a['string'][cut + 2:]
+            tops = rng.choice(['{[#SYS]}', '{[#SYS]}', '{[#SYS].[#SYS]}', '{[#SYS].[#V]}'])
+            n_top = tops.count('#SYS')
+            made += 1
+            yield dict(kind='ambig_layered', multi_string=tops + '.{#SYS=' + body + '}.' + frag,
+                       two_level='{' + '.'.join([body] * n_top) + '}.' + frag, coarse_last=a['coarse'], legacy=a['legacy'], nlevels=2,
+                       features=sorted(set(a['features']) | {'polymer_units_one_level_down'} | ({'zero_order_bond_inside_intermediate_fragment'} if '.' in body else set())))
+            continue
         c = MC.random_multilevel_case(rng, rng.choice([6, 10, 16]), coarse_last=rng.random() < 0.3)
         if c is None:
             continue
@@ -46,7 +62,42 @@ def final_matches(case, aa, truth):
     return (not problems and M.same_molecule(heavy, truth)), M.describe(heavy)
 
 
+def run_ambig_layered(case):
+    """polymer-style units (non-unique descriptors, '.' bonds, multipliers) written one level down inside a single
+    coarse fragment: the layered string and its flattening must end in the same molecule"""
+    import networkx as nx
+    from cgsmiles import MoleculeResolver
+    contracts.clear()
+    viol = []
+    kw = dict(last_all_atom=not case['coarse_last'], legacy=case['legacy'])
+    multi, two = case['multi_string'], case['two_level']
+    key = 'fragname' if case['coarse_last'] else 'element'
+    nontrivial = False
+    try:
+        try:
+            cg2, aa2 = MoleculeResolver.from_string(two, **kw).resolve_all()
+        except Exception:
+            cg2 = aa2 = None       # the flattening itself is rejected (judged by C03/C20): nothing to compare with
+        if aa2 is not None:
+            cg, aa = MoleculeResolver.from_string(multi, **kw).resolve_all()
+            nontrivial = True
+            same = (len(aa) == len(aa2) and aa.number_of_edges() == aa2.number_of_edges()
+                    and nx.is_isomorphic(aa, aa2, node_match=lambda a, b: a.get(key) == b.get(key) and a.get('charge', 0) == b.get('charge', 0),
+                                         edge_match=lambda a, b: a.get('order') == b.get('order')))
+            if not same:
+                viol.append(V('c06.layered_vs_flattened', f'{multi} {kw} ends in {len(aa)} nodes / {aa.number_of_edges()} bonds / {nx.number_connected_components(aa)} molecules, '
+                              f'its flattening {two} in {len(aa2)} nodes / {aa2.number_of_edges()} bonds / {nx.number_connected_components(aa2)} molecules'))
+    except Exception as err:
+        viol.append(V('c06.exception.' + type(err).__name__, f'{multi} {kw} raised {type(err).__name__}: {err} although its flattening {two} resolves'))
+    for rec in contracts.take('C02') + contracts.take('C03') + contracts.take('C06'):
+        viol.append(V('c06.step_' + rec['clause'], f'{multi} :: {rec["msg"]}'))
+    contracts.clear()
+    return {'violations': viol, 'nontrivial': nontrivial, 'sample': multi, 'cls': ('ambig_layered', tuple(case['features']))}
+
+
 def run(case):
+    if case.get('kind') == 'ambig_layered':
+        return run_ambig_layered(case)
     from cgsmiles import MoleculeResolver
     contracts.clear()
     viol = []
@@ -102,7 +153,7 @@ def run(case):
             viol.append(V('c06.two_level_vs_truth', f'two-level string {two} does not give the ground truth: {desc}'))
     except Exception as err:
         viol.append(V('c06.two_level_exception', f'{two} raised {type(err).__name__}: {err}'))
-    for rec in contracts.take('C02') + contracts.take('C03'):
+    for rec in contracts.take('C02') + contracts.take('C03') + contracts.take('C06'):
         viol.append(V('c06.step_' + rec['clause'], f'{multi} :: {rec["msg"]}'))
     contracts.clear()
     return {'violations': viol, 'nontrivial': case['nlevels'] >= 3, 'sample': multi,
